@@ -381,3 +381,66 @@ Definition put (after : bool) (count : nat) (s : ostate) : ostate :=
       let t' := firstn b t ++ body ++ [nl] ++ skipn b t in
       mkO t' (first_nb_of_line t' b) (o_reg s)
   end.
+
+(** ** the word text objects iw aw iW aW (count 1): Vim's [current_word] *)
+Fixpoint back_in_line (fuel : nat) (big : bool) (t : text) (cls : N) (p : nat) : nat :=
+  (* back to the start of the run of characters of class [cls] that [p] is in, on its line *)
+  match fuel with
+  | O => p
+  | S f => if Nat.eqb p (line_start_from t p) then p else
+           match p with
+           | O => O
+           | S q => if class_at big t q =? cls then back_in_line f big t cls q else p
+           end
+  end.
+Fixpoint ewo_skip_blank (fuel : nat) (big : bool) (t : text) (p : nat) : nat * N :=
+  (* 0: stopped on a non-blank; 1: stopped on an empty line ([finished]); 2: ran into the end of the buffer *)
+  match fuel with
+  | O => (p, 2)
+  | S f => if class_at big t p =? 0 then
+             if on_empty_line t p then (p, 1) else
+             let '(q, r) := inc t p in if r =? 3 then (q, 2) else ewo_skip_blank f big t q
+           else (p, 0)
+  end.
+(** [end_word(1, bigword, stop = TRUE, empty = TRUE)]: the position reached, and whether it failed there *)
+Definition end_word_obj (big : bool) (t : text) (p : nat) : nat * bool :=
+  let n := length t in
+  let sclass := class_at big t p in
+  let '(p1, r) := inc t p in
+  if r =? 3 then (p1, true) else
+  if (class_at big t p1 =? sclass) && negb (sclass =? 0) then
+    let '(p2, hit) := ew_skip_class (S n) big t sclass p1 in
+    if hit then (p2, true) else (dec t p2, false)
+  else if sclass =? 0 then
+    let '(p2, st) := ewo_skip_blank (S n) big t p1 in
+    if st =? 2 then (p2, true) else
+    if st =? 1 then (p2, false) else
+    let '(p3, hit3) := ew_skip_class (S n) big t (class_at big t p2) p2 in
+    if hit3 then (p3, true) else (dec t p3, false)
+  else (dec t p1, false).
+
+Definition word_object (big include : bool) (t : text) (i : nat) : orange :=
+  let n := length t in
+  let start := back_in_line (S n) big t (class_at big t i) i in
+  let on_blank := class_at big t start =? 0 in
+  if Bool.eqb on_blank include then
+    (* "iw" on a word, "aw" on blanks: to the end of the word *)
+    let '(e, failed) := end_word_obj big t start in
+    if failed then RFail (settle_line t e) else incl t start e
+  else
+    (* "iw" on blanks, "aw" on a word: to just before the next word *)
+    let q := fst (fwd_word_op1 big true t start) in
+    let e := if Nat.eqb q (line_start_from t q) && Nat.ltb start q
+             then (* first column of a later line: back to the last character of the line before *)
+                  (if Nat.ltb (line_start_from t (q - 1)) (q - 1) then q - 2 else q - 1)%nat
+             else (q - 1)%nat in
+    let e := Nat.max e start in
+    if include && (negb (class_at big t e =? 0)) then
+      (* no blanks behind the word: take the blanks in front of it instead, unless they are the indent *)
+      let start' :=
+        if Nat.ltb (line_start_from t start) start then
+          let b := back_in_line (S n) big t (class_at big t (start - 1)) (start - 1) in
+          if (class_at big t b =? 0) && Nat.ltb (line_start_from t b) b then b else start
+        else start in
+      incl t start' e
+    else incl t start e.
